@@ -6,27 +6,9 @@
 (*   env OR_IN   absolute path of the input  (array of definitions)        *)
 (*   env OR_OUT  absolute path of the output (array of result records)     *)
 (***************************************************************************)
-EXTENDS ModelSem, Json, IOUtils
+EXTENDS DefJson, Json, IOUtils
 
 In == JsonDeserialize(IOEnv.OR_IN)
-
-AtomTable(j) ==
-    [a \in {j.atoms[k].idx : k \in 1..Len(j.atoms)} |->
-        LET k == CHOOSE k \in 1..Len(j.atoms) : j.atoms[k].idx = a
-        IN  [kind |-> j.atoms[k].kind, arg |-> PFromTerms(j.atoms[k].arg), pair |-> j.atoms[k].pair]]
-
-ToDef(j) ==
-    [ns |-> j.ns, np |-> j.np, npx |-> j.np, nd |-> j.nd, n |-> j.n,
-     atoms   |-> AtomTable(j),
-     derived |-> [k \in 1..Len(j.derived) |-> PFromTerms(j.derived[k])],
-     events  |-> [e \in 1..Len(j.events) |->
-                    [rate |-> PFromTerms(j.events[e].rate),
-                     trs  |-> [k \in 1..Len(j.events[e].trs) |->
-                                 [ty  |-> j.events[e].trs[k].ty,
-                                  o   |-> j.events[e].trs[k].o,
-                                  d   |-> j.events[e].trs[k].d,
-                                  mag |-> PFromTerms(j.events[e].trs[k].mag)]]]],
-     odes    |-> [k \in 1..Len(j.odes) |-> [st |-> j.odes[k].st, eqn |-> PFromTerms(j.odes[k].eqn)]]]
 
 Wants(j, s) == \E k \in 1..Len(j.want) : j.want[k] = s
 Opt(j, s, v) == IF Wants(j, s) THEN v ELSE <<>>
